@@ -124,7 +124,7 @@ def ref_pad(L, M, p, N):
         right = [2 * L[-1] - L[-1 - k] for k in range(1, p + 1)]
         L = left + L + right
         M = [M[0]] * p + M + [M[-1]] * p
-        if not (max(L) < N or min(L) >= 0):
+        if not (max(L) <= N - 1 or min(L) >= 0):      # both edges covered: something before sample 0 and after sample N-1
             return np.array(L), np.array(M)
 
 
@@ -169,8 +169,9 @@ def check_extrema_result(x, L0, M0, locs, mags, pad, parabolic):
         return ('extrema:interior', 'interior block altered: %s vs %s' % (blockL.tolist(), L0.tolist()))
     if not parabolic and not (np.array_equal(blockL, L0) and np.array_equal(blockM, M0)):
         return ('extrema:interior-exact', 'unrefined extrema must be bit-equal')
-    if not (locs[0] < 0 and locs[-1] >= N):
-        return ('extrema:coverage', 'padded locations [%g, %g] do not cover [0, %d]' % (locs[0], locs[-1], N))
+    if not (locs[0] < 0 and locs[-1] > N - 1):
+        # "beyond both ends": something strictly before the first sample (index 0) and strictly after the last (N-1)
+        return ('extrema:coverage', 'padded locations [%g, %g] do not reach beyond samples 0 and %d' % (locs[0], locs[-1], N - 1))
     if not (np.all(mags[:off] == mags[off]) and np.all(mags[off + n:] == mags[off + n - 1])):
         return ('extrema:pad-mags', 'pad magnitudes are not the edge magnitude: %s' % mags.tolist())
     if p <= n - 1:
